@@ -237,7 +237,12 @@ def execBlock (m : Mem) (ctx : Ctx) (b : BlockOp) (regs : RegFile) (w : Option W
     let some w := w | throw "weights of the operation were not supplied"
     let kh := (b.kernelH - 1) / b.dilationY + 1
     let kw := (b.kernelW - 1) / b.dilationX + 1
-    if w.kh ≠ kh ∨ w.kw ≠ kw ∨ w.oc ≠ od then throw s!"supplied weights {w.oc}x{w.kh}x{w.kw}x{w.ic} do not fit kernel {kh}x{kw} depth {od}"
+    -- weights encoded for more output channels than the operation has are accepted only when every channel carries the
+    -- same values (then the assignment of stream positions to channels cannot matter)
+    let chanSize := w.kh * w.kw * w.ic
+    let uniform := (List.range w.oc).all fun o => (List.range chanSize).all fun i => w.vals.getD (o * chanSize + i) 0 == w.vals.getD i 0
+    if w.kh ≠ kh ∨ w.kw ≠ kw ∨ w.oc < od ∨ (w.oc > od ∧ !uniform) then
+      throw s!"supplied weights {w.oc}x{w.kh}x{w.kw}x{w.ic} do not fit kernel {kh}x{kw} depth {od}"
     if b.kind == .conv ∧ w.ic ≠ C then throw "supplied weights do not fit the IFM depth"
     if b.kind == .depthwise ∧ (w.ic ≠ 1 ∨ C ≠ od) then throw "depthwise weights / depth mismatch"
     let recs ← (List.range od).mapM fun c => readScaleRec m b.scales ctx.ncores c
